@@ -210,8 +210,31 @@ def rule_chunks(repo, rep):
                 'drawn members are not removed from the class pool before '
                 'the next draw')
   # the feasibility bound itself: sum over classes of len(pool) // chunk_size
+  # the bound is the local compared with the parameter n_chunks in the guard
+  # of the ValueError that precedes the draws (found by role, not by name)
+  bound_name = None
+  loops0 = [w for w in ast.walk(f.node) if isinstance(w, (ast.While, ast.For))
+            and any(c is x for x in ast.walk(w))]
+  feas_ok = False
+  for r in [r for r in ast.walk(f.node) if isinstance(r, ast.Raise)]:
+    if 'ValueError' not in repo.exception_bases(f.module, r.exc):
+      continue
+    if not loops0 or r.lineno >= loops0[0].lineno:
+      continue
+    blk = astutil.parents(f.node).get(r)
+    if not isinstance(blk, ast.If) or r not in blk.body:
+      continue
+    t = blk.test
+    if isinstance(t, ast.Compare) and len(t.ops) == 1 and \
+            isinstance(t.left, ast.Name) and \
+            isinstance(t.comparators[0], ast.Name):
+      l, r_, op = t.left.id, t.comparators[0].id, t.ops[0]
+      if r_ == 'n_chunks' and isinstance(op, ast.Lt):
+        bound_name, feas_ok = l, True
+      elif l == 'n_chunks' and isinstance(op, ast.Gt):
+        bound_name, feas_ok = r_, True
   bdefs = [n for n in ast.walk(f.node) if isinstance(n, ast.Assign) and
-           ast.unparse(n.targets[0]) == 'max_chunks']
+           bound_name and ast.unparse(n.targets[0]) == bound_name]
   if bdefs:
     v = bdefs[-1].value
     comps = [c_ for c_ in ast.walk(v)
@@ -233,21 +256,12 @@ def rule_chunks(repo, rep):
     else:
       rep.unknown(R4, 'Constraints.chunks:bound', site(f, bdefs[-1]),
                   'feasibility bound %s not recognised' % ast.unparse(v))
-  raises = [r for r in ast.walk(f.node) if isinstance(r, ast.Raise)]
-  loops = [w for w in ast.walk(f.node) if isinstance(w, (ast.While, ast.For))
-           and any(c is x for x in ast.walk(w))]
-  good = False
-  for r in raises:
-    conds = astutil.path_condition(f.node, r)
-    if 'max_chunks < n_chunks' in conds and 'ValueError' in \
-            repo.exception_bases(f.module, r.exc) and loops and \
-            r.lineno < loops[0].lineno:
-      good = True
-  if good:
+  if feas_ok:
     rep.derived(R4, 'Constraints.chunks:feasibility', site(f))
   else:
     rep.refuted(R4, 'Constraints.chunks:feasibility', site(f),
-                'no ValueError under max_chunks < n_chunks before the draws')
+                'no ValueError under <number of possible chunks> < n_chunks '
+                'before the draws')
 
 
 def rule_structure(repo, rep):
